@@ -2,6 +2,7 @@
 From Coq Require Import QArith Lia.
 From Zeno Require Import Base Sort Expr ExprSpec ExprP Seq Store StoreExprP DB.
 From Zeno Require Pin PinP PinSrc Facts TiePin.
+From Zeno Require Tree TreeP.
 Local Open Scope Z_scope.
 
 (* two histories with the same inserts in the same order, split between memory and disk by ANY flushes
@@ -63,6 +64,15 @@ Example C03_nonvacuous :
   Forall (ev_ok 2 6) a /\ Forall (ev_ok 2 6) b /\ read e 2 2 a k 14 = read e 2 2 b k 14 /\ read e 2 2 b k 14 = CAvg (Some (3, 21)).
 Proof. split; [repeat constructor; cbn; lia|]. split; [repeat constructor; cbn; lia|]. vm_compute. auto. Qed.
 
+(* what fileStore.iterate relies on when it merges a file with the memstore tree: Remove hands back exactly the
+   key's data (once per context) and changes neither keys nor data, so the file row is merged with the right
+   memstore row whatever the shape of the tree *)
+Theorem C03_tree_remove : forall (D:Type) ctx key (t:Tree.tree D), TreeP.wf_tree t ->
+  let '(t', o) := Tree.tremove ctx key t in
+  TreeP.wf_tree t' /\ TreeP.content t' = TreeP.content t
+  /\ o = (if Tree.tremoved ctx key t then None else Tree.tfind key t).
+Proof. exact TreeP.tremove_spec. Qed.
+
 Print Assumptions C03_schedule_independent.
 Print Assumptions C03_disk_equals_mem_after_flush.
 Print Assumptions C03_split_anywhere.
@@ -70,3 +80,4 @@ Print Assumptions C03_reads_accumulated_state.
 Print Assumptions C03_scans_unaffected_by_flushes_and_file_removal.
 Print Assumptions C03_separate_registration_refuted.
 Print Assumptions C03_remover_sees_scan_registrations.
+Print Assumptions C03_tree_remove.
